@@ -312,8 +312,12 @@ def inject(case, fault, pos):
                     if depth == 0:
                         rest = r[k + 1:]
                         break
-        lines[i] = '+%s {"order": 2} %s' % (base, rest)
-        return '\n'.join(lines), (fault, i)
+        # every kind of contradiction between a prefix and an explicit order, including an explicit order of 0
+        pairs = [('+', '2'), ('+', '0'), ('--', '0'), ('-', '1'), ('>', '0'), ('*', '0'), ('>', '">>"'), ('+', '">"'),
+                 ('++', '1'), ('<', '">"'), ('-', '-2'), ('**', '"*"')]
+        prefix, order = pairs[(pos // 7) % len(pairs)]
+        lines[i] = '%s%s {"order": %s} %s' % (prefix, base, order, rest)
+        return '\n'.join(lines), (fault + ':' + prefix + '/' + order, i)
     if fault in ('too-few-atoms-delim', 'too-many-atoms-delim', 'too-few-tokens'):
         spots = [i for i in any_inter if '{' not in lines[i].split(';')[0] and '(' not in lines[i]]
         i = pick(spots)
@@ -349,8 +353,8 @@ def run_fault(case):
         first_top = None
         count_before = sum(1 for ln in text.split('\n')[:lineno] if ln.split(';')[0].strip().strip('[ ]').lower()
                            in ('moleculetype', 'link', 'modification', 'macros', 'variables', 'citations'))
-        return Outcome([fault], count_before >= 2)
-    raise Violation('fault-accepted:' + fault, 'file with injected fault %r near line %d was loaded without error:\n%s' % (fault, lineno + 1, text))
+        return Outcome([fault.split(':')[0]] + ([fault] if ':' in fault else []), count_before >= 2)
+    raise Violation('fault-accepted:' + fault.split(':')[0], 'file with injected fault %r near line %d was loaded without error:\n%s' % (fault, lineno + 1, text))
 
 
 def strategy_fault(tier):
